@@ -449,6 +449,14 @@ class C03(fw.Property):
         tun = {}; remote_of = {}; pending = {}      # pending: request still waiting in the token manager
         info = {}     # rid -> dict(times, mid, t, state)   state in open/acked/reset/timedout/errored
         refusing = set(); tainted = set()
+        clock = [0]
+        def mindue():
+            best = None
+            for rid, x in info.items():
+                if x["state"] == "open":
+                    due = x["times"][0] + x["t"] * (2 ** len(x["times"]) - 1)
+                    if best is None or due < best[0]: best = (due, rid)
+            return best
         def V(sig, msg, r=None):
             if r is not None and r in tainted:
                 return ("C03:refused-retransmission:exchange-survives", "[after a refused retransmission to remote %d] %s: %s" % (r, sig, msg))
@@ -457,12 +465,24 @@ class C03(fw.Property):
             sends = [e for e in step if e[0] == "send"]; fails = [e for e in step if e[0] == "fail"]
             results = [e for e in step if e[0] == "result"]; errors = [e for e in step if e[0] == "error"]
             if ev[0] == "refuse": (refusing.add if ev[2] else refusing.discard)(ev[1])
+            # the oracle's own clock: which timer (if any) fires in this step, by the schedule the property prescribes
+            fired = None; md = mindue()
+            if ev[0] == "wait": clock[0] = max(clock[0], min(ev[1], md[0]) if md else ev[1])
+            elif ev[0] == "fire" and md: clock[0] = max(clock[0], md[0]); fired = md[1]
+            elif ev[0] == "firedue" and md and md[0] <= clock[0]: fired = md[1]
+            for e in step:
+                if e[0] in ("send", "fail", "result", "draw", "empty", "error") and isinstance(e[1], int): clock[0] = max(clock[0], e[1])
+            if fired is not None and remote_of[fired] in refusing and len(info[fired]["times"]) < 1 + tun[fired][3]:
+                # a retransmission handed to a refusing transport: dispatch_error runs inside send(); the exchange must be gone afterwards
+                rr = remote_of[fired]; tainted.add(rr)
+                for rid, x in info.items():
+                    if remote_of[rid] == rr and x["state"] == "open": x["state"] = "errored"
             if errors:
                 nm = str(errors[0][2])
                 if nm == "KeyError" and ev[0] in ("recv", "resp") and ev[1] in refusing:
                     return ("C03:refused-backlog-release:keyerror", "KeyError out of _continue_backlog: the release of a backlogged message to remote %d was refused by the transport during %s" % (ev[1], ev))
-                if tainted and ev[0] in ("fire", "firedue"):
-                    return V("C03:internal-exception:" + nm, "exception %s in the timer callback" % nm, sorted(tainted)[0])
+                if tainted and (ev[0] in ("fire", "firedue") or (len(ev) > 1 and ev[1] in tainted)):
+                    return V("C03:internal-exception:" + nm, "exception %s during %s" % (nm, ev), sorted(tainted)[0])
                 return ("C03:internal-exception:" + nm, "exception %s escaped during %s" % (nm, ev))
             if ev[0] == "req": tun[ev[1]] = ev[3]; remote_of[ev[1]] = ev[2]; pending[ev[1]] = True
             if ev[0] == "cancel" and ev[1] in pending: pending[ev[1]] = False
@@ -534,6 +554,7 @@ class C03(fw.Property):
             net = [f for f in fails if f[3] == "NetworkError"]
             err_remotes = set()
             if ev[0] == "err": err_remotes.add(ev[1])
+            if ev[0] == "resp" and ev[2] == 1 and ev[1] in refusing: err_remotes.add(ev[1])     # our empty ACK / RST reply is refused
             for f in net:
                 r = remote_of.get(f[2])
                 if not f[5]: return ("C03:transport-error-wrong-class", "%s is not a NetworkError" % f[3])
